@@ -1147,8 +1147,9 @@ class ModelBuilder:
                                 already_exists = True
                                 break
                         if not already_exists:
-                            existing_deps.append(source_task)
-                            target_task[("depends", scIdx)] = existing_deps
+                            # The list attribute appends on assignment: hand over only the
+                            # new entry (re-assigning the whole list duplicated every entry).
+                            target_task[("depends", scIdx)] = [source_task]
 
     def _resolve_task_reference(self, project: Project, from_task: Task, ref: str) -> Optional[Task]:
         """Resolve a task reference string to a Task object.
